@@ -274,6 +274,7 @@ def solve_script(args):
     dropped = len(qf_pc) != len(full_pc)
     consts = {n for n, args_, r in s["decls"] if not args_}
     pcres = None
+    cands = {}
 
     def record(g, res, backend, secs, n, model=""):
         results[g["id"]] = {"res": res, "backend": backend, "ms": int(secs * 1000 / max(1, n)), "model": model}
@@ -346,8 +347,10 @@ def solve_script(args):
             if r[0] == "unsat" or (r[0] == "sat" and not dropped):
                 record(g, r[0], parsed["by"].get(g["id"], be), secs, len(pending), r[1] if r[0] == "sat" else "")
             elif r[0] == "sat":
-                # counter-model of a subset of the assumptions: a *candidate*, to be replayed on the real code
-                record(g, "cand", parsed["by"].get(g["id"], be), secs, len(pending), r[1])
+                # counter-model of a subset of the assumptions: a *candidate*, to be replayed on the
+                # real code if the obligation is not proved from the full assumptions below
+                cands[g["id"]] = (parsed["by"].get(g["id"], be), r[1])
+                still.append(g)
             else:
                 still.append(g)
         pending = still
@@ -381,6 +384,10 @@ def solve_script(args):
                 record(g, r[0], parsed["by"].get(g["id"]), secs, len(pending), r[1] if r[0] == "sat" else "")
             else:
                 results[g["id"]]["raw"] = out[-400:]
+    for g in s["goals"]:
+        if results[g["id"]]["res"] == "unknown" and g["id"] in cands:
+            results[g["id"]] = {"res": "cand", "backend": cands[g["id"]][0], "ms": results[g["id"]]["ms"],
+                                "model": cands[g["id"]][1]}
     return {"script": s, "results": results, "pc": pcres}
 
 
